@@ -23,6 +23,7 @@ case "$demo" in
     crate_dir=${place%%/*}; name=$(basename "$place" .rs)
     case $crate_dir in detector) pkg=alpha_g_detector;; physics) pkg=alpha_g_physics;; analysis) pkg=alpha-g-analysis;; esac
     feat=""; grep -q "verif-hooks" "$demo" && [ $pkg = alpha_g_physics ] && feat="--features verif-hooks"
+    head -12 "$demo" | grep -q -- "--release" && feat="$feat --release"
     mkdir -p "$crate_dir/tests"; cp "$demo" "$place"
     run_demo() { cargo test --offline -p $pkg $feat --test $name >/tmp/wt/confirm_demo.log 2>&1; }
     ;;
